@@ -441,6 +441,12 @@ func (runInfo *runInfoStruct) invokeLetDerefExpr(expr *ast.DerefExpr) {
 		runInfo.rv = nilValue
 		return
 	}
+	if _, ok := runInfo.rv.Interface().(reflect.Type); ok {
+		// a type, as returned by make(type ...), is a pointer to its Go type descriptor
+		runInfo.err = newStringError(expr, "type cannot be assigned")
+		runInfo.rv = nilValue
+		return
+	}
 	item := runInfo.rv.Elem()
 	if !item.CanSet() {
 		runInfo.err = newStringError(expr, "pointer value cannot be assigned")
